@@ -10,15 +10,18 @@
    LATECHECK = TRUE is a wrong variant (the length checks run before aes_rand is expanded, so an empty aes_key next to a
    valid aes_rand is rejected although the table accepts it) used to show that the invariants can fail. *)
 EXTENDS Naturals, Sequences, FiniteSets, TLC
-CONSTANTS LATECHECK
+CONSTANTS LATECHECK, PARTIAL
 AesC  == {"none", "empty", "k16", "k15", "k17"}
 HmacC == {"none", "empty", "h16", "h15"}
 RandC == {"none", "empty", "r16", "r5"}
 RsaC  == {"none", "match", "mismatch"}
 Args == [aes : AesC, hmac : HmacC, rand : RandC, rsa : RsaC, trial : BOOLEAN, verify : BOOLEAN]
 Truthy(x) == x \notin {"none", "empty"}
-Len16(x) == x \in {"k16", "h16", "derived_aes", "derived_hmac"}
+Len16(x) == x \in {"k16", "h16", "derived_aes", "derived_hmac", "md_aes", "md_hmac"}
 
+\* the session keys after the first check-in has been decoded: a decoder that holds the private key and lacks one of the two
+\* keys takes BOTH from the metadata of the check-in ("md_aes", "md_hmac": the SHA-256 halves of its random bytes)
+AfterCheckIn(rsa, aes, hm) == IF rsa = "match" /\ (aes = "none" \/ hm = "none") THEN <<"md_aes", "md_hmac">> ELSE <<aes, hm>>
 \* ---- reference: the decision table
 Outcome(a) ==
     IF Truthy(a.rand) /\ Truthy(a.aes) THEN [r |-> "ValueError", why |-> "both"]
@@ -29,7 +32,7 @@ Outcome(a) ==
             ELSE IF hm # "none" /\ ~Len16(hm) THEN [r |-> "ValueError", why |-> "hmac_length"]
             ELSE IF a.rsa = "mismatch" THEN [r |-> "AssertionError", why |-> "pair"]
             ELSE IF a.trial THEN [r |-> "ValueError", why |-> "trial"]
-            ELSE [r |-> "ok", aes |-> aes, hmac |-> hm, verify |-> a.verify, rsa |-> a.rsa # "none"]
+            ELSE [r |-> "ok", aes |-> aes, hmac |-> hm, verify |-> a.verify, rsa |-> a.rsa # "none", after |-> AfterCheckIn(a.rsa, aes, hm)]
 
 \* ---- the constructor, check by check
 VARIABLES a, pc, aes, hmac, res
@@ -46,8 +49,15 @@ CheckHmac == pc = "hmaclen" /\ IF hmac # "none" /\ ~Len16(hmac) THEN Fail("Value
                                ELSE pc' = (IF LATECHECK THEN "derive" ELSE "pair") /\ UNCHANGED <<a, aes, hmac, res>>
 CheckPair == pc = "pair" /\ IF a.rsa = "mismatch" THEN Fail("AssertionError", "pair") ELSE pc' = "trial" /\ UNCHANGED <<a, aes, hmac, res>>
 CheckTrial == pc = "trial" /\ IF a.trial THEN Fail("ValueError", "trial")
-                              ELSE res' = [r |-> "ok", aes |-> aes, hmac |-> hmac, verify |-> a.verify, rsa |-> a.rsa # "none"] /\ pc' = "done" /\ UNCHANGED <<a, aes, hmac>>
-Next == CheckBoth \/ CheckRequired \/ Derive \/ CheckAes \/ CheckHmac \/ CheckPair \/ CheckTrial
+                              ELSE res' = [r |-> "ok", aes |-> aes, hmac |-> hmac, verify |-> a.verify, rsa |-> a.rsa # "none", after |-> <<aes, hmac>>] /\ pc' = "ready" /\ UNCHANGED <<a, aes, hmac>>
+\* the first check-in: metadata is decrypted when there is a private key; missing session keys are then derived (PARTIAL = the
+\* wrong variant that only derives when there is no key at all)
+CheckIn == /\ pc = "ready"
+           /\ LET derive == a.rsa = "match" /\ (IF PARTIAL THEN aes = "none" /\ hmac = "none" ELSE aes = "none" \/ hmac = "none")
+              IN IF derive THEN aes' = "md_aes" /\ hmac' = "md_hmac" /\ res' = [res EXCEPT !.after = <<"md_aes", "md_hmac">>]
+                 ELSE UNCHANGED <<aes, hmac, res>>
+           /\ pc' = "done" /\ UNCHANGED a
+Next == CheckBoth \/ CheckRequired \/ Derive \/ CheckAes \/ CheckHmac \/ CheckPair \/ CheckTrial \/ CheckIn
 Spec == Init /\ [][Next]_vars /\ WF_vars(Next)
 
 MatchesTable == pc = "done" => res = Outcome(a)
